@@ -56,3 +56,8 @@ add("C07", "exploration", "lexical path-resolution reference model + ground-trut
     "trailing slash, is sent to the real Files and Pages apps of both interfaces (directory given absolute, relative to a changed cwd, and package-relative); the outcome is compared with the model, "
     "every 'open' audit event during the request must lie inside the served directory, every file is requested at its own path, and Pages redirects are followed to the index page.",
     "Resolution is lexical (no symlinks in the workload); trailing slash after a non-directory accepts {slash-less result, 404}; one known finding (literal '%' in a redirected path) is keyed by mechanism.")
+add("C14", "exploration", "offline history checker over file versions on a virtual file clock (os.stat wrapped in the harness for sandbox paths); bounded-exhaustive modification/request histories",
+    "Every history up to length 3 (thorough 4) over 19 operations (rewrite same/other size, touch, clock advances of 0.4/1/2.5 s, plain and conditional requests carrying the validators of the latest "
+    "or the first response in 8 header forms, '*') and random longer ones are replayed against the real Files and Pages apps of both interfaces; each response records the file version it came "
+    "from and the checker flags stale 304s, old content, non-renewed validators, non-empty 304 bodies and fresh copies that do not revalidate.",
+    "Virtual timestamps replace st_mtime/st_ctime for sandbox files only; same-size sub-second rewrites unconstrained; one inherent known finding (Last-Modified only, same-second size change).")
